@@ -265,7 +265,8 @@ Record jcoll := mkJcoll { k_members : list jh; k_binning : jaxis; k_name : sx; k
 Definition coll_doc (c : jcoll) : sx :=
   jobj [("binning", axis_doc (k_binning c)); ("histogram_type", jstr "histogram_collection");
         ("histograms", jarr (map to_doc (k_members c))); ("name", k_name c); ("title", k_title c)].
-Definition axis_eqb (a b : jaxis) : bool := jeqb (axis_doc a) (axis_doc b).
+(** BinningBase.__eq__ compares the class and the bins, not the adaptive flag *)
+Definition axis_eqb (a b : jaxis) : bool := jeqb (axis_doc (mkJaxis (x_bin a) false)) (axis_doc (mkJaxis (x_bin b) false)).
 Definition coll_of_doc (doc : sx) : option jcoll :=
   o <- d_jobj doc ;;
   ms <- (v <- jget "histograms" o ;; l <- d_jarr v ;; mapM of_doc l) ;;
